@@ -218,7 +218,32 @@ pub fn lower(n: &[u8]) -> Vec<u8> {
 /// the name it appears in ("prior occurrence"), total length <= 255.
 /// Returns (uncompressed name, position after the name in the original
 /// sequence, number of pointers followed).
+#[derive(Default, Debug, Clone)]
+pub struct NameTrace {
+    /// offsets at which a (non-root or root) label physically starts
+    pub label_starts: std::collections::BTreeSet<usize>,
+    /// (offset of the pointer, target offset, target was a known label start when read)
+    pub pointers: Vec<(usize, usize, bool)>,
+}
+
+thread_local! {
+    static TRACE: std::cell::RefCell<Option<NameTrace>> = const { std::cell::RefCell::new(None) };
+}
+
+/// Run `f` while collecting label starts and pointers of every name read.
+pub fn with_trace<T>(f: impl FnOnce() -> T) -> (T, NameTrace) {
+    TRACE.with(|t| *t.borrow_mut() = Some(NameTrace::default()));
+    let r = f();
+    let tr = TRACE.with(|t| t.borrow_mut().take()).unwrap_or_default();
+    (r, tr)
+}
+
 pub fn read_name(msg: &[u8], pos: usize) -> Result<(Vec<u8>, usize, usize), NameErr> {
+    let r = read_name_inner(msg, pos);
+    r
+}
+
+fn read_name_inner(msg: &[u8], pos: usize) -> Result<(Vec<u8>, usize, usize), NameErr> {
     let mut out = Vec::new();
     let mut p = pos;
     let mut end = None;
@@ -238,6 +263,14 @@ pub fn read_name(msg: &[u8], pos: usize) -> Result<(Vec<u8>, usize, usize), Name
                 if out.len() > 255 {
                     return Err(NameErr::TooLong);
                 }
+                if end.is_none() {
+                    // only labels physically part of this occurrence
+                    TRACE.with(|t| {
+                        if let Some(tr) = t.borrow_mut().as_mut() {
+                            tr.label_starts.insert(p);
+                        }
+                    });
+                }
                 p += 1 + l;
                 if l == 0 {
                     return Ok((out, end.unwrap_or(p), ptrs));
@@ -250,6 +283,12 @@ pub fn read_name(msg: &[u8], pos: usize) -> Result<(Vec<u8>, usize, usize), Name
                 let t = ((l & 0x3F) << 8) | msg[p + 1] as usize;
                 if end.is_none() {
                     end = Some(p + 2);
+                    TRACE.with(|tc| {
+                        if let Some(tr) = tc.borrow_mut().as_mut() {
+                            let known = tr.label_starts.contains(&t);
+                            tr.pointers.push((p, t, known));
+                        }
+                    });
                 }
                 if t >= limit {
                     return Err(NameErr::ForwardPointer);
@@ -500,6 +539,20 @@ pub fn compose_fields_canonical(fs: &[Fv]) -> Vec<u8> {
     v
 }
 
+/// Comparison form: uncompressed, *all* embedded names lower-cased (DNS
+/// name equality is case-insensitive; compression may legitimately change
+/// the case a reader reconstructs).
+pub fn compose_fields_lower_all(fs: &[Fv]) -> Vec<u8> {
+    let mut v = Vec::new();
+    for f in fs {
+        match f {
+            Fv::Raw(b) => v.extend_from_slice(b),
+            Fv::Name { wire, .. } => v.extend_from_slice(&lower(wire)),
+        }
+    }
+    v
+}
+
 // ---------------------------------------------------------- message --
 
 #[derive(Debug, Clone, PartialEq, Eq)]
@@ -520,6 +573,8 @@ pub struct RefRecord {
     /// malformed for its type
     pub rdata: Option<Vec<u8>>,
     pub rdata_canonical: Option<Vec<u8>>,
+    /// uncompressed RDATA with every embedded name lower-cased
+    pub rdata_cmpform: Option<Vec<u8>>,
     pub raw_rdlen: usize,
     pub start: usize,
     pub rdata_start: usize,
@@ -575,11 +630,11 @@ pub fn parse_message(msg: &[u8]) -> Result<RefMsg, MsgErr> {
             if rs + rdlen > msg.len() {
                 return Err(MsgErr::Record(n));
             }
-            let (rdata, rdc) = match decode_rdata(msg, rs, rdlen, rtype) {
-                Ok(fs) => (Some(compose_fields(&fs)), Some(compose_fields_canonical(&fs))),
-                Err(_) => (None, None),
+            let (rdata, rdc, rdl) = match decode_rdata(msg, rs, rdlen, rtype) {
+                Ok(fs) => (Some(compose_fields(&fs)), Some(compose_fields_canonical(&fs)), Some(compose_fields_lower_all(&fs))),
+                Err(_) => (None, None, None),
             };
-            records.push(RefRecord { section: sec, owner, rtype, class, ttl, rdata, rdata_canonical: rdc, raw_rdlen: rdlen, start, rdata_start: rs });
+            records.push(RefRecord { section: sec, owner, rtype, class, ttl, rdata, rdata_canonical: rdc, rdata_cmpform: rdl, raw_rdlen: rdlen, start, rdata_start: rs });
             p = rs + rdlen;
             n += 1;
         }
